@@ -247,7 +247,7 @@ namespace Givaro
     inline std::istream&
     ModularBalanced<int64_t>::read(std::istream& is, Element& x) const
     {
-        Element tmp;
+        Element tmp = 0;
         is >> tmp;
         init(x, tmp);
         return is;
